@@ -122,6 +122,12 @@ In-place mutation, nested loops, decision trees (option `mut=True`, third pass; 
   * `for pat in it { v.push(e); }` is `v ++ it.map(|pat| e)` (what `.map(..).collect()` gives), `for pat in it { v.extend(w); }` and
     a loop whose body is one such loop are `v ++ it.flat_map(..)`; nothing is appended to a literally empty vector.
   Floating-point expression trees are never touched: no re-association, no commutation, no `x / 2.` ↔ `0.5 * x`.
+  Fifth pass: `&mut self` methods as state transformers (option `state_fn`, see `Translator._state_def`); fragment kind `cond` (the
+  condition of the n-th `if` as a `Bool` function) and Boolean `let` fragments (`bool=True`); a `field_calls` spelling containing
+  `{0}` keeps the constructor's arguments (`Gamma::new(a, b).sample()` = `gsample a b`); `self.m(args)` through `self_methods`
+  (applied to the self binders, bound if it can panic); `a.saturating_sub(b)` of usize is the truncated `a - b`; `mut_self_value`: a
+  `&mut self` method whose effect is spelled by its value; a tail `if` whose branches contain checked subtractions keeps the
+  guards inside the branches.
   Still outside: `while` / `loop`, `break` / `continue`, `return` of anything but `None` inside a loop, checked `usize`
   subtraction / division inside a loop body or a branch, `match` with bindings or guards, `if let` on other patterns,
   `&mut self` / `&mut` arguments, iterator adaptors not listed above.
@@ -753,7 +759,7 @@ class Parser:
                 self.i += 1
                 start = self.i
                 # a type: path with optional generics; we only accept simple scalar types
-                while self.peek().k == "id" or self.at("::"):
+                while (self.peek().k == "id" and self.peek().s != "as") or self.at("::"):
                     self.i += 1
                 left = N("cast", e=left, ty="".join(x.s for x in self.T[start:self.i]))
                 continue
@@ -1119,6 +1125,14 @@ class Opts:
         self.adt_ctors = {}           # "Broadcast::Vstack" -> Lean constructor term (applied to the translated arguments)
         self.struct_types = {}        # struct type of a parameter -> [(field, type)]: binders `<param>_<field>`
         self.struct_methods = {}      # method on such a parameter -> list of fields: `m.shape()` = the tuple of these fields
+        self.mut_self_value = False   # (mut) accept `&mut self` like `&self` for a method whose effect is spelled by its VALUE (e.g. `fit`
+                                      # ending in `self.update(&coeffs)` with `self_methods={"update": ("{0}", "vec", False)}`: the new field)
+        self.self_methods = {}        # (mut) `self.m(args)` with arguments -> (lean fn, return type, can_panic): applied to the self
+                                      # binders, then the arguments
+        self.state_fn = False         # (implies `mut`) a `&mut self` method as a state transformer `S → args → S × Bool` (new state, panicked):
+                                      # the convention of Model/DistState.lean; see Translator._state_def
+        self.state_calls = {}         # method on `self` (setter) -> Lean state transformer, e.g. {"set_alpha": "Beta_setAlpha"}
+        self.f64_to_i64 = None        # spelling of `x as i64` of an f64
         self.normalize = True         # (option `mut`) normal form that absorbs harmless tidying: immutable `let`s of pure integer
                                       # expressions and of slices are inlined (a slice of a slice is index arithmetic on the base),
                                       # `usize` sums are left-associated, a loop that only pushes / extends is `++ map` / `++ flatMap`
@@ -1132,6 +1146,8 @@ class Opts:
                                       # fields (`m.data[i] = e` mutates the field), the value `m` is rebuilt with it
         self.doc = None
         self.__dict__.update(kw)
+        if self.state_fn:
+            self.mut = True
         if self.mut:
             self.loops = True
 
@@ -1386,6 +1402,9 @@ class Translator:
         if o.closure is not None:      # a closure of an iterator pipeline: the rest of the body is not parsed
             self.started_option = True
             return self._closure_def()
+        if o.state_fn:
+            self.started_option = True
+            return self._state_def()
         body = Parser(src, *fn.body).block_body()
         params = self._params()
         env = {}
@@ -1497,6 +1516,162 @@ class Translator:
             rty = "Option (%s)" % rty if " " in rty else "Option %s" % rty
         return self._emit_def(binders, rty, lean_body)
 
+    # ---- `&mut self` methods as state transformers (option `state_fn`)
+    def _state_def(self):
+        """A method `fn m(&mut self, args) [-> &mut Self]` of a struct listed in `struct_types` / `adts` as
+        `def m (d : S) (args) : S × Bool` — the new state and whether the call panicked; a panic keeps the assignments made
+        before it (no roll-back), exactly the convention of Model/DistState.lean.  The body is a sequence of
+          `if c { panic!(..) }` / `assert!(c)`           -> `if c then (d, true) else ..` / `if c then .. else (d, true)`
+          `self.f = e;`                                   -> `let d := { d with f := e }`   (a panicking constructor in `e`: `match`)
+          `self.set_a(x).set_b(y);` / `self.set_a(x);`    -> the listed state transformers (`state_calls`), left to right, stopping at
+                                                             the first that panics
+          `*self = Self::new(x, y);`                      -> `match new x y with | some d' => .. d' .. | none => (d, true)`
+          `self` / nothing                                -> `(d, false)`
+        A read `params[k]` of a slice parameter is `match ps[k]? with | none => (d, true) | some a => ..`, evaluated where the
+        source evaluates it (argument by argument, call by call)."""
+        o, fn, src = self.o, self.fn, self.src
+        name = fn.impl
+        if name not in o.adts or name not in o.struct_types:
+            raise Unsupported("state transformer of `%s` (options adts / struct_types)" % name)
+        T, mt = src.toks, src.mt
+        lo, hi = fn.params
+        segs, i = [], lo
+        while i < hi:
+            j, depth = i, 0
+            while j < hi and not (T[j].s == "," and depth == 0):
+                if T[j].s in ("(", "[", "{"):
+                    j = mt[j]
+                elif T[j].s == "<":
+                    depth += 1
+                elif T[j].s == ">":
+                    depth -= 1
+                j += 1
+            segs.append([t.s for t in T[i:j]])
+            i = j + 1
+        if not segs or segs[0] != ["&", "mut", "self"]:
+            raise Unsupported("state transformer: the first parameter is not `&mut self`")
+        env, binders = {}, [("d", o.adts[name])]
+        TY = {"nat": U, "int": I, "f64": F, "vec": V, "bool": B}
+        for f, fty in o.struct_types[name]:
+            env["self." + f] = ("d.%s" % f, TY.get(fty, fty))
+        self.slices = set()
+        for seg in segs[1:]:
+            if ":" not in seg or seg.index(":") != 1:
+                raise Unsupported("parameter pattern %s" % " ".join(seg))
+            pn, pty = seg[0], self.ty2("".join(seg[2:]))
+            if pty is None:
+                raise Unsupported("parameter %s: type %s" % (pn, "".join(seg[2:])))
+            env[pn] = (self.lname(pn), pty)
+            self._declare(pn, env, False)
+            binders.append((self.lname(pn), lean_ty(pty)))
+            if pty == V:
+                self.slices.add(pn)
+        self.self_args = []
+        self.option_mode = False
+        self.ret_ty = ("adt", name, o.adts[name])
+        body = Parser(src, *fn.body).block_body()
+        sts = list(body.stmts)
+        if body.tail is not None:
+            sts.append(N("exprstmt", e=body.tail))
+        text = self._state_stmts(sts, 0, env, 1)
+        return self._emit_def(binders, "%s × Bool" % self.atom(o.adts[name]) if " " in o.adts[name] else o.adts[name] + " × Bool", text)
+
+    PANICKED = "(d, true)"
+
+    def _st_reads(self, node, env, reads):
+        """replace the reads `ps[k]` of a slice parameter by fresh variables (in evaluation order)"""
+        if isinstance(node, list):
+            return [self._st_reads(x, env, reads) for x in node]
+        if not isinstance(node, N):
+            return node
+        if node.kind == "index" and node.e.kind == "var" and node.e.name in self.slices and node.idx.kind == "lit":
+            v = self.fresh("a")
+            reads.append((v, env[node.e.name][0], node.idx.text))
+            env[v] = (v, F)
+            return N("var", name=v)
+        new = N(node.kind)
+        for k_, v_ in node.__dict__.items():
+            new.__dict__[k_] = self._st_reads(v_, env, reads) if isinstance(v_, (N, list)) and k_ != "parsed" else v_
+        return new
+
+    def _st_wrap(self, reads, pre, inner, d):
+        """`match ps[k]? with ..` for the slice reads, then guards / constructor binds, around `inner` (text at depth d)"""
+        for item in reversed(pre):
+            if item[0] == "guard":
+                inner = "%sif %s then\n%s\n%selse %s" % (self.ind(d), item[1], self._indent_more(inner), self.ind(d), self.PANICKED)
+            else:
+                inner = "%smatch %s with\n%s| none => %s\n%s| some %s =>\n%s" % (
+                    self.ind(d), item[2], self.ind(d), self.PANICKED, self.ind(d), item[1], self._indent_more(inner))
+        for v, ps, k in reversed(reads):
+            inner = "%smatch %s[%s]? with\n%s| none => %s\n%s| some %s =>\n%s" % (
+                self.ind(d), ps, k, self.ind(d), self.PANICKED, self.ind(d), v, self._indent_more(inner))
+        return inner
+
+    def _state_stmts(self, sts, i, env, d):
+        o = self.o
+        if i == len(sts):
+            return self.ind(d) + "(d, false)"
+        s = sts[i]
+        rest = lambda: self._state_stmts(sts, i + 1, env, d)
+        e = s.e if s.kind == "exprstmt" else None
+        if e is not None and e.kind == "var" and e.name == "self" and i + 1 == len(sts):
+            return self.ind(d) + "(d, false)"
+        if e is not None and e.kind == "if" and e.els is None and self._diverges(e.then) and not self._has_return(e.then):
+            return "%sif %s then %s\n%selse\n%s" % (self.ind(d), self.cond(e.c, env), self.PANICKED, self.ind(d),
+                                                     self._indent_more(rest()))
+        if e is not None and e.kind == "macro" and e.name in ("assert", "assert_eq"):
+            p = Parser(self.src, *e.rng)
+            c = p.expr()
+            if e.name == "assert_eq":
+                p.eat(",")
+                c = N("bin", op="==", l=c, r=p.expr())
+            return "%sif %s then\n%s\n%selse %s" % (self.ind(d), self.cond(c, env), self._indent_more(rest()), self.ind(d),
+                                                    self.PANICKED)
+        if s.kind == "assign" and s.op == "=" and s.target.kind == "field" and s.target.e.kind == "var" \
+                and s.target.e.name == "self" and ("self." + s.target.name) in env:
+            reads = []
+            rhs = self._st_reads(s.e, env, reads)
+            (v, ty), pre = self.collect(lambda: self.expr(rhs, env))
+            if not compat(ty, env["self." + s.target.name][1]):
+                raise Unsupported("assignment of a %s to `self.%s`" % (ty, s.target.name))
+            inner = "%slet d := { d with %s := %s }\n%s" % (self.ind(d), s.target.name, v, rest())
+            return self._st_wrap(reads, pre, inner, d)
+        if s.kind == "assign" and s.op == "=" and s.target.kind == "un" and s.target.op == "*" and s.target.e.kind == "var" \
+                and s.target.e.name == "self":
+            reads = []
+            rhs = self._st_reads(s.e, env, reads)
+            if rhs.kind != "call" or "::".join(rhs.path) not in o.opt_fns:
+                raise Unsupported("`*self = ..`: the right-hand side is not a listed constructor call")
+            key = "::".join(rhs.path)
+            args = [self.atom(self.expr(a, env)[0]) for a in rhs.args]
+            call = "(%s)" % " ".join([o.fns[key]] + args)
+            inner = "%smatch %s with\n%s| none => %s\n%s| some d =>\n%s" % (
+                self.ind(d), call, self.ind(d), self.PANICKED, self.ind(d), self._indent_more(rest()))
+            return self._st_wrap(reads, [], inner, d)
+        if e is not None and e.kind == "method":
+            chain, r = [], e
+            while r.kind == "method":
+                chain.append(r)
+                r = r.recv
+            if r.kind == "var" and r.name == "self" and all(c.name in o.state_calls for c in chain):
+                chain.reverse()
+
+                def calls(k):
+                    if k == len(chain):
+                        return rest()
+                    c = chain[k]
+                    reads = []
+                    cargs = [self._st_reads(a, env, reads) for a in c.args]
+                    vals, pre = self.collect(lambda: [self.atom(self.expr(a, env)[0]) for a in cargs])
+                    r_ = self.fresh("r")
+                    inner = "%slet %s := %s\n%sif %s.2 then %s\n%selse\n%s  let d := %s.1\n%s" % (
+                        self.ind(d), r_, " ".join([o.state_calls[c.name], "d"] + vals), self.ind(d), r_, r_, self.ind(d),
+                        self.ind(d), r_, self._indent_more(calls(k + 1)))
+                    return self._st_wrap(reads, pre, inner, d)
+                return calls(0)
+        raise Unsupported("statement of a `&mut self` method outside the state-transformer subset (%s)" % (
+            s.kind if e is None else e.kind))
+
     def _emit_def(self, binders, rty, lean_body):
         o = self.o
         allb = list(o.extra_binders) + binders
@@ -1527,7 +1702,7 @@ class Translator:
             seg = T[i:j]
             names = [t.s for t in seg]
             if "self" in names and ":" not in names:
-                if "mut" in names:
+                if "mut" in names and not (self.o.mut and self.o.mut_self_value):
                     raise Unsupported("`&mut self`")
                 out.append(("self", "Self"))
             else:
@@ -1579,6 +1754,9 @@ class Translator:
         if node.kind == "loop":
             return bool(self.o.mut) and self._loop_can_panic(self._parse_for(node)[2])
         if self.o.mut and node.kind == "call" and ("::".join(node.path) in self.o.opt_fns or node.path[-1] in self.o.opt_fns):
+            return True
+        if self.o.mut and node.kind == "method" and node.recv.kind == "var" and node.recv.name == "self" \
+                and node.name in self.o.self_methods and self.o.self_methods[node.name][2]:
             return True
         if self.o.mut and node.kind == "method" and node.name in ("unwrap", "expect") and not (
                 node.recv.kind == "method" and node.recv.name == "split_first"):      # (an index panic: not modelled)
@@ -1638,7 +1816,13 @@ class Translator:
         if e.kind == "if" and self.option_mode and not self._can_panic(e) and not self._has_return(e) \
                 and not getattr(self, "result_ret", False):
             # a pure conditional value of a function that can panic elsewhere: `some (if .. then .. else ..)`
-            return self.ind(d) + "some %s" % self.atom(self.expr(e, env)[0])
+            if not self.o.mut:
+                return self.ind(d) + "some %s" % self.atom(self.expr(e, env)[0])
+            saved = (self.fresh_n, self.need_option)
+            try:
+                return self.ind(d) + "some %s" % self.atom(self.expr(e, env)[0])
+            except Unsupported:          # a branch has a panic source after all (checked subtraction): branch by branch
+                self.fresh_n, self.need_option = saved
         if e.kind == "if":
             if e.els is None:
                 raise Unsupported("`if` without `else` in value position")
@@ -2720,6 +2904,8 @@ class Translator:
                 return "((%s : Nat) : Int)" % v, I
             if want == U and ty == F and o.mut and o.f64_to_usize:
                 return "(%s)" % o.f64_to_usize.format(self.atom(v)), U
+            if want == I and ty == F and o.mut and o.f64_to_i64:
+                return "(%s)" % o.f64_to_i64.format(self.atom(v)), I
             if want == U and ty == I and o.mut and o.int_arith:
                 # `p as usize` of a signed integer: a negative `p` wraps to a huge index (out of bounds: not modelled)
                 return "(Int.toNat %s)" % self.atom(v), U
@@ -2948,6 +3134,16 @@ class Translator:
             # RangeInclusive::contains: `lo <= x && x <= hi`
             return "%s ≤ %s ∧ %s %s %s" % (self.atom(lo), self.atom(x), self.atom(x), "≤" if recv.incl else "<",
                                             self.atom(hi)), B
+        if recv.kind == "var" and recv.name == "self" and o.mut and name in o.self_methods:
+            fnm, rty, can_panic = o.self_methods[name]
+            rty = {"nat": U, "int": I, "f64": F, "vec": V, "bool": B}.get(rty, rty)
+            args = [self.atom(self.expr(a, env)[0]) for a in e.args]
+            text = fnm.format(*args) if "{0}" in fnm else "(%s)" % " ".join([fnm] + self.self_args + args)
+            if can_panic:
+                v = self.fresh("r")
+                self.add_pre(("bind", v, text, rty), "call of the panicking method `self.%s`" % name)
+                return v, rty
+            return text, rty
         if recv.kind == "var" and recv.name == "self":
             if name in o.self_calls and not e.args:
                 return "(%s)" % " ".join([o.self_calls[name]] + self.self_args), F
@@ -2961,6 +3157,11 @@ class Translator:
             return t_, {"nat": U, "int": I, "f64": F, "vec": V, "bool": B}.get(ty_, ty_)
         if o.mut and not e.args and recv.kind == "call" and ("::".join(recv.path) + "." + name) in o.field_calls:
             t_, ty_ = o.field_calls["::".join(recv.path) + "." + name]
+            if "{0}" in t_:                      # the constructor's arguments are kept: e.g. "(gsample {0} {1})"
+                cargs = [self.atom(self.expr(a, env)[0]) for a in recv.args]
+                if len(set(re.findall(r"\{(\d)\}", t_))) != len(cargs):
+                    raise Unsupported("`%s(..).%s()`: arity" % ("::".join(recv.path), name))
+                t_ = t_.format(*cargs)
             return t_, {"nat": U, "int": I, "f64": F, "vec": V, "bool": B}.get(ty_, ty_)
         if o.mut and name == "unwrap" and not e.args and recv.kind == "method" and recv.name == "split_first" and not recv.args:
             # `x.split_first().unwrap()` = `(&x[0], &x[1..])`: an index / slice panic on an empty slice, NOT modelled
@@ -2988,6 +3189,10 @@ class Translator:
             if name in ("exp", "ln", "sqrt", "abs", "sin", "cos") and not e.args:
                 return "(Cv.Vops.vun Cv.Transc.%s %s)" % (name, self.atom(r)), V
             raise Unsupported("method `.%s` on a vector" % name)
+        if o.mut and tr == U and name == "saturating_sub" and len(e.args) == 1:
+            a, ta = self.expr(e.args[0], env)
+            if ta in (U, INTLIT):
+                return "(%s - %s)" % (self.atom(r), self.atom(a)), U         # truncated subtraction of `Nat`
         if tr != F:
             raise Unsupported("method `.%s` on %s" % (name, tr))
         if o.mut and name in o.bool_methods and not e.args:
@@ -3438,6 +3643,22 @@ class Translator:
             if p.i != p.hi:
                 raise Unsupported("call of `%s`: more than one argument" % callee)
             doc = "`%s`%s, argument of `%s(..)` #%d: `%s`" % (where, armtxt, callee, idx, self.src.pretty((i, mt[i + 1] + 1)))
+        elif kind == "cond":
+            # the condition of the n-th `if` of the body (option `mut`), as a Boolean function of its declared free variables
+            if not o.mut:
+                raise Unsupported("fragment kind `cond` needs the option `mut`")
+            hits = [i for i in range(lo, hi - 1) if toks[i].k == "id" and toks[i].s == "if" and toks[i + 1].s != "let"]
+            if idx >= len(hits):
+                raise NotFound("`if` #%d (found %d)" % (idx, len(hits)))
+            i = hits[idx]
+            j = i + 1
+            while not (toks[j].k == "p" and toks[j].s == "{"):
+                j = mt[j] + 1 if toks[j].s in ("(", "[") else j + 1
+            p = Parser(self.src, i + 1, j)
+            expr = p.expr()
+            if p.i != j:
+                raise Unsupported("`if` #%d: condition shape" % idx)
+            doc = "`%s`%s, condition of `if` #%d: `%s`" % (where, armtxt, idx, self.src.pretty((i + 1, j)))
         elif kind == "assign":
             # the right-hand side of the n-th assignment `<name> = e;` / `<name>[..] = e;` (option `mut`)
             if not o.mut:
@@ -3524,7 +3745,7 @@ class Translator:
         for rn, ln in cl.get("free", {}).items():
             ty = F
             if isinstance(ln, tuple):
-                ln, ty = ln[0], {"nat": U, "int": I, "f64": F}[ln[1]]
+                ln, ty = ln[0], {"nat": U, "int": I, "f64": F, "bool": B}[ln[1]]
             cenv[rn] = (ln, ty)
             binders.append((ln, LEAN_TY[ty]))
         for _key, ln in cl.get("index_vars", {}).items():
@@ -3552,6 +3773,11 @@ class Translator:
             if len(binders) != len(bd):
                 raise Unsupported("fragment binders not all listed")
         self.option_mode = False
+        if o.mut and (kind == "cond" or (kind == "let" and cl.get("bool"))):
+            v, vty = self.expr(expr, cenv)
+            if vty != B:
+                raise Unsupported("expected a condition, found %s: %s" % (vty, v))
+            return self._emit_def(binders, "Bool", "  decide (%s)" % v)
         if o.mut and kind == "assign":
             v, vty = self.expr(expr, cenv)
             if vty not in (F, VAR):
@@ -3718,6 +3944,16 @@ fn q_ext(x: &[f64], n: usize) -> Vec<f64> { let mut v = Vec::with_capacity(n); f
 fn q_assoc(x: &[f64], i: usize, j: usize, a: f64, b: f64, c: f64) -> f64 { x[i + (j + 1)] + (a + (b + c)) }
 fn q_stale(x: &[f64], n: usize) -> f64 { let k = n + 1; let n = k * 2; x[k + n] }
 fn q_mutdep(x: &[f64]) -> f64 { let mut p: usize = 0; let k = p + 1; p += 2; x[k + p] }
+pub struct Bt { alpha: f64, gen: Un }
+impl Bt { pub fn set_alpha(&mut self, alpha: f64) -> &mut Self { if alpha <= 0. { panic!("no"); } self.alpha = alpha; self.gen = Un::new(alpha, 1.); self }
+    pub fn set_b(&mut self, b: f64) -> &mut Self { self }
+    fn update(&mut self, params: &[f64]) { self.set_alpha(params[0]).set_b(params[1] as usize as f64); }
+    fn reset(&mut self, params: &[f64]) { *self = Self::new(params[0]); }
+    fn pick(&self) -> f64 { if self.alpha < 10. { 1. } else { 2. } } }
+pub struct Ar { coeffs: Vec<f64>, c: f64 }
+impl Ar { fn centred(&self, d: &[f64]) -> f64 { let n = d.len(); let k = self.coeffs.len(); if n >= k { dot(&d[n - k..], &self.coeffs) } else { dot(d, &self.coeffs[k - n..]) } }
+    fn one(&self, d: &[f64]) -> f64 { let s = d.len().saturating_sub(self.coeffs.len()); self.centred(&d[s..]) + self.c }
+    fn refit(&mut self, d: &[f64]) -> &mut Self { let c2 = inv(d); self.store(&c2) } }
 pub struct Ex { lambda: f64, rng: Un }
 impl Ex { pub fn new(lambda: f64) -> Self { if lambda <= 0. { panic!("no"); } Ex { lambda, rng: Un::new(0., 1.), } }
     fn sample(&self) -> f64 { -self.rng.sample().ln() / self.lambda } }
@@ -3946,6 +4182,29 @@ def _selftest():
     check("q_mutdep", "let p : Nat := 0 let k : Nat := (p + 1) let p : Nat := (p + 2) (R x (k + p))", **M)
     check("q_push", "let v : List α := List.foldl (fun (v : List α) (i : Nat) => let v : List α := (v ++ [(a + ((i : Nat) : α))]) v) "
           "([] : List α) (List.range n) v", normalize=False, **M)
+    # ---- `&mut self` methods as state transformers `S → args → S × Bool` (new state, panicked)
+    ST = dict(state_fn=True, adts={"Bt": "BT", "Un": "U'"}, struct_types={"Bt": [("alpha", "f64"), ("gen", ("adt", "Un", "U'"))]},
+              fns={"Un::new": "UN", "Self::new": "NEW"}, fn_ret={"Un::new": ("adt", "Un", "U'"), "Self::new": ("adt", "Bt", "BT")},
+              opt_fns=("Un::new", "Self::new"), f64_to_usize="TU {0}", int_arith=True)
+    check("Bt::set_alpha", "if alpha ≤ 0 then (d, true) else let d := { d with alpha := alpha } match (UN alpha 1) with | none => (d, true) "
+          "| some r1 => let d := { d with gen := r1 } (d, false)", **ST)
+    check("Bt::update", "match params[0]? with | none => (d, true) | some a1 => let r2 := SA d a1 if r2.2 then r2 else let d := r2.1 "
+          "match params[1]? with | none => (d, true) | some a3 => let r4 := SB d (((TU a3) : Nat) : α) if r4.2 then r4 else let d := r4.1 (d, false)",
+          state_calls={"set_alpha": "SA", "set_b": "SB"}, **ST)
+    check("Bt::reset", "match params[0]? with | none => (d, true) | some a1 => match (NEW a1) with | none => (d, true) | some d => (d, false)", **ST)
+    refuse("Bt::update", "outside the state-transformer subset", **ST)              # setters not listed
+    refuse("Bt::set_alpha", "`&mut self`", mut=True)
+    check("Bt::pick", "decide (alpha < ((10 : Nat) : α))", mut=True, closure=dict(kind="cond", index=0, free={"self.alpha": "alpha"}))
+    # checked subtractions inside the branches of a tail `if` are guards inside the branches; `self.m(args)`; `saturating_sub`
+    AR = dict(mut=True, int_arith=True, fns={"dot": "D"}, self_fields=["coeffs", "c"])
+    check("Ar::centred", "if d.length ≥ coeffs.length then if coeffs.length ≤ d.length then some (D (List.drop (d.length - coeffs.length) d) coeffs) "
+          "else none else if d.length ≤ coeffs.length then some (D d (List.drop (coeffs.length - d.length) coeffs)) else none", **AR)
+    check("Ar::one", "let s : Nat := (d.length - coeffs.length) (CEN coeffs c (List.drop s d)).bind fun (r1 : α) => some (r1 + c)",
+          self_methods={"centred": ("CEN", "f64", True)}, **AR)
+    check("Ar::refit", "(INV d).bind fun (r1 : List α) => let c2 : List α := r1 some c2", mut_self_value=True,
+          type_alias={"&mutSelf": "Vec<f64>"}, self_methods={"store": ("{0}", "vec", False)}, fns={"inv": "INV"}, fn_ret={"inv": "vec"},
+          opt_fns=("inv",), mut=True, self_fields=["coeffs", "c"])
+    refuse("Ar::refit", "`&mut self`", mut=True, self_fields=["coeffs", "c"])
     # struct literals (fields in declaration order, nested constructor bound first); a sub-sampler draw as a parameter
     check("Ex::new", "if lambda ≤ 0 then none else (UN 0 1).bind fun (r1 : U') => some (MK lambda r1)", mut=True,
           adts={"Ex": "E'", "Un": "U'"}, struct_types={"Ex": [("lambda", "f64"), ("rng", ("adt", "Un", "U'"))]},
